@@ -73,7 +73,7 @@ def same_position(p, q):
 
 def ev(case, rec):
     ell = case['ell']
-    E = ELLS[ell]
+    E = cfg.ell_obj(ell)
     a, invf = ELL_AF[ell]
     p1 = case['p1']
     rows = []
@@ -163,7 +163,41 @@ def ev(case, rec):
     rec.sample({'case': dict(case, p2s=case['p2s'][:2])})
 
 
-SUBCHECKS = [Sub('inverse', gen, ev, chunk=2, floor=1000)]
+def gen_types(tier, seed):
+    for ell in ('grs80', 'intl24'):
+        for kind in cfg.INTYPES[1:]:
+            yield {'ell': ell, 'kind': kind}
+
+
+TYPE_PTS = [(-37.95103342, 144.42486789), (-37.65282114, 143.92649553), (0.3, -0.15), (-0.5, 179.75), (45.5, -73.25), (12.0, 12.0)]
+
+
+def ev_types(case, rec):
+    E = cfg.ell_obj(case['ell'])
+    k = case['kind']
+    for p1 in TYPE_PTS:
+        for p2 in TYPE_PTS:
+            try:
+                o = [cfg.as_type(v, k) for v in (p1[0], p1[1], p2[0], p2[1])]
+            except Exception:
+                rec.skip('input object could not be built (C08)')
+                continue
+            f = [x.dec() for x in o]
+            st, r = rec.call(vincinv, o[0], o[1], o[2], o[3], E)
+            st2, r2 = rec.call(vincinv, f[0], f[1], f[2], f[3], E)
+            # mixed form: first point as objects, second as floats
+            st3, r3 = rec.call(vincinv, o[0], o[1], f[2], f[3], E)
+            rec.nontriv((case['ell'], k, p1, p2))
+            if st != 'ok' or st2 != 'ok' or st3 != 'ok' or tuple(r) != tuple(r2) or tuple(r3) != tuple(r2):
+                rec.fail('angle-class arguments give a different inverse solution from their decimal-degree values',
+                         site='geodesy:vincinv:intype', observed=[r, r3], expected=r2, case=dict(case, p1=list(p1), p2=list(p2)),
+                         coords={'kind': k})
+            else:
+                rec.outcome('intype-ok')
+    rec.sample(case)
+
+
+SUBCHECKS = [Sub('inverse', gen, ev, chunk=2, floor=1000), Sub('types', gen_types, ev_types, chunk=1, floor=100)]
 
 
 def bounds(tier, seed):
